@@ -275,12 +275,24 @@ def main(argv):
     # ---- bounded stand-ins / native witness search
     bounded = []
     native_fail = []
-    for nat in P.native:
-        if tier == "quick" and nat.get("thorough_only"):
-            continue
+    # reproduction scripts registered in replays/demos/INDEX.json (regression guards of repaired defects, known findings)
+    try:
+        index = json.load(open(os.path.join(HERE, "replays", "demos", "INDEX.json")))
+    except (OSError, ValueError):
+        index = {}
+    for name, ent in sorted(index.items()):
+        if ent.get("property") == pid:
+            P.native.append(dict(name=name, adapter="demos:run", payload={"name": name, "budget_s": 420}, thorough_only=not ent.get("quick", False),
+                                 bound="script replays/demos/%s.py: %s" % (name, ent.get("what", ""))))
+    todo = [nat for nat in P.native if not (tier == "quick" and nat.get("thorough_only"))]
+
+    def run_native(nat):
         payload = nat["payload"](seed, tier) if callable(nat.get("payload")) else nat.get("payload", {})
-        payload = dict(payload, seed=seed, tier=tier)
-        r = run_replay(nat["adapter"], payload, nat.get("timeout", 900))
+        return run_replay(nat["adapter"], dict(payload, seed=seed, tier=tier), nat.get("timeout", 900))
+    from concurrent.futures import ThreadPoolExecutor
+    with ThreadPoolExecutor(max_workers=6) as tp:
+        results = list(tp.map(run_native, todo))
+    for nat, r in zip(todo, results):
         bounded.append({"name": nat["name"], "adapter": nat["adapter"], "bound": nat.get("bound", ""),
                         "status": r.get("status"), "cases": r.get("cases"), "detail": str(r.get("detail", ""))[:500]})
         if r.get("status") == "fail":
@@ -346,7 +358,7 @@ def main(argv):
                     replayed = r
                 rec["replay_of_model"] = r
             if replayed is None and rp.get("search", True):
-                r = run_replay(rp["adapter"], {"mode": "search", "seed": seed, "tier": tier})
+                r = run_replay(rp["adapter"], dict(rp.get("payload", {}), mode="search", seed=seed, tier=tier))
                 rec["replay_search"] = {k: r.get(k) for k in ("status", "cases", "detail")}
                 if r.get("status") == "fail":
                     replayed = r
@@ -371,9 +383,9 @@ def main(argv):
         rp = (c.replay if isinstance(c.replay, dict) else {"adapter": c.replay}) if (c is not None and c.replay) else None
         found = None
         if rp is not None:
-            if rp["adapter"] not in tried:
-                tried[rp["adapter"]] = run_replay(rp["adapter"], {"mode": "search", "seed": seed, "tier": tier})
-            r = tried[rp["adapter"]]
+            if rp["adapter"] + str(rp.get("payload", "")) not in tried:
+                tried[rp["adapter"] + str(rp.get("payload", ""))] = run_replay(rp["adapter"], dict(rp.get("payload", {}), mode="search", seed=seed, tier=tier))
+            r = tried[rp["adapter"] + str(rp.get("payload", ""))]
             if r.get("status") == "fail":
                 found = r
         if found is not None:
@@ -392,9 +404,9 @@ def main(argv):
         if c is None or not c.replay:
             continue
         rp = c.replay if isinstance(c.replay, dict) else {"adapter": c.replay}
-        if rp["adapter"] not in tried:
-            tried[rp["adapter"]] = run_replay(rp["adapter"], {"mode": "search", "seed": seed, "tier": tier})
-        r = tried[rp["adapter"]]
+        if rp["adapter"] + str(rp.get("payload", "")) not in tried:
+            tried[rp["adapter"] + str(rp.get("payload", ""))] = run_replay(rp["adapter"], dict(rp.get("payload", {}), mode="search", seed=seed, tier=tier))
+        r = tried[rp["adapter"] + str(rp.get("payload", ""))]
         u["native_search"] = r.get("status")
         if r.get("status") == "fail":
             rec = {"obligation": f"{pid}.{c.short}.contract", "kind": "native", "clause": "; ".join(c.ensures),
